@@ -317,10 +317,18 @@ def table_events(rec):
         return ('discharged', 'symbolic execution (generic loop element) + z3 LIA/LRA', '%d paths; listed event set = applied event set, rows carry (time, duration, amount)' % n_paths)
 
     def backed(final_is_none):
-        r = go(final_is_none)
+        from contracts import mech_native
+        try:
+            r = go(final_is_none)
+        except (Unsupported, sym.TooManyPaths) as ex:
+            # a changed tree may build the table with constructs outside the symbolic model: the native replay (table versus the events the
+            # pacing system applies, over a grid of regimens and final times incl. final times that are dose times) may still find a witness
+            wit = mech_native.table_witness(None, final_is_none, rec.seed)
+            if wit is None:
+                return ('undecided', 'engine', 'outside the symbolic model: %s (native replay finds nothing)' % (str(ex)[:160],))
+            return ('refuted', 'native replay (symbolic execution undecided)', '%s | native: %s' % (str(ex)[:100], wit['what']), wit)
         if r[0] != 'refuted':
             return r
-        from contracts import mech_native
         wit = mech_native.table_witness(r[3] if len(r) > 3 else None, final_is_none, rec.seed)
         if wit is None:
             return ('undecided', r[1], r[2] + ' (not reproduced natively)')
